@@ -54,11 +54,9 @@ def replay(path, quiet=False):
 
 
 def confirm_fresh(prop, path):
-    """Replay in a fresh interpreter (other PYTHONHASHSEED) and require the same
-    violation and digest."""
+    """Replay in a fresh interpreter and require the same violation and digest."""
     env = dict(os.environ)
-    env["PYTHONHASHSEED"] = "12345"
-    env["VERIF_NO_REEXEC"] = "1"
+    env.pop("PYTHONHASHSEED", None)       # ./check re-execs itself under the fixed hash seed
     cmd = [sys.executable, os.path.join(core.VERIF, "check"), prop, "--replay", path,
            "--machine"]
     try:
